@@ -2,6 +2,7 @@ package execsim
 
 import (
 	"bytes"
+	"encoding/hex"
 	"encoding/json"
 	"fmt"
 	"io"
@@ -12,8 +13,10 @@ import (
 	"sync"
 	"testing"
 
+	"github.com/33cn/chain33/common"
 	"github.com/33cn/chain33/types"
 	"github.com/33cn/chain33/util"
+	"github.com/decred/base58"
 
 	"verifsim/simnode"
 	"verifsim/simrt"
@@ -36,14 +39,14 @@ var gmpValues = []int{1, 2, 4, 16}
 
 // condition code = gmpIdx*8 + activity
 const (
-	actNone     = iota // nothing in between
-	actOther           // execute another transaction list first (the block reversed / halved)
-	actQueries         // state, local and header queries first
-	actCheckTx         // mempool-style EventCheckTx of the block's transactions first
-	actTwin            // execute on the twin node (same chain, different prior activity)
-	actFresh           // execute on a node booted now and fed the chain
-	actRecheck         // re-execute as a received block (signature check, state hash check)
-	actRepeat          // twice in a row
+	actNone    = iota // nothing in between
+	actOther          // execute another transaction list first (the block reversed / halved)
+	actQueries        // state, local and header queries first
+	actCheckTx        // mempool-style EventCheckTx of the block's transactions first
+	actTwin           // execute on the twin node (same chain, different prior activity)
+	actFresh          // execute on a node booted now and fed the chain
+	actRecheck        // re-execute as a received block (signature check, state hash check)
+	actRepeat         // twice in a row
 	nActs
 )
 
@@ -55,7 +58,11 @@ func (g *gen) c13Block() simrt.Op {
 		case 0:
 			b.Sub = append(b.Sub, g.c11Prog(g.sender(), g.pickName(), false))
 		case 1:
-			b.Sub = append(b.Sub, g.xfer())
+			x := g.xfer()
+			if g.oddTo && r.Chance(1, 2) {
+				x.S = []string{oddRecipient(r)}
+			}
+			b.Sub = append(b.Sub, x)
 		case 2:
 			b.Sub = append(b.Sub, simrt.Op{K: "none", I: []int64{int64(g.sender()), g.next()}})
 		case 3:
@@ -65,6 +72,34 @@ func (g *gen) c13Block() simrt.Op {
 		}
 	}
 	return b
+}
+
+// oddRecipient spells a recipient that is well-formed text but not a valid
+// address of any (or of only one) address format.
+func oddRecipient(r *simrt.RNG) string {
+	base := simnode.AccountKey(r.Intn(NAcc)).Addr
+	raw := base58.Decode(base)
+	switch r.Intn(6) {
+	case 0: // damaged checksum
+		raw[len(raw)-1] ^= 0x5a
+		return base58.Encode(raw)
+	case 1: // another version byte, checksum recomputed
+		raw[0] = byte(r.Range(1, 200))
+		sum := common.Sha2Sum(raw[:21])
+		copy(raw[21:], sum[:4])
+		return base58.Encode(raw)
+	case 2: // another version byte, checksum of the original
+		raw[0] = byte(r.Range(1, 200))
+		return base58.Encode(raw)
+	case 3: // too short
+		return base58.Encode(raw[:r.Range(5, 24)])
+	case 4: // hex spelling with a damaged digit count
+		return "0x" + hex.EncodeToString(raw[1:21])[:r.Range(30, 39)]
+	}
+	// one character replaced
+	b := []byte(base)
+	b[r.Range(1, len(b)-1)] = "123456789ABCDEFGHJKLMNPQRSTUVWXYZabcdefghijkmnopqrstuvwxyz"[r.Intn(58)]
+	return string(b)
 }
 
 func (detEngine) Generate(prop string, r *simrt.RNG, tier string, run int) *simrt.Scenario {
@@ -85,6 +120,17 @@ func (detEngine) Generate(prop string, r *simrt.RNG, tier string, run int) *simr
 		if r.Chance(1, 8) {
 			sc.Knobs["child"] = 1
 		}
+	}
+	// Address rules that only start at a later height (as on the main net): below
+	// it some malformed recipients are forgiven, depending on WHICH error the
+	// address check returns. Such chains are always executed in a fresh OS process
+	// as well, block by block, because the verdict is cached per process.
+	if r.Chance(1, 3) {
+		sc.Knobs["addrforks"] = 1
+		sc.Knobs["chainchild"] = 1
+		g.oddTo = true
+	} else if r.Chance(1, 10) {
+		sc.Knobs["chainchild"] = 1
 	}
 	// The whole chain is wrapped into one op (see wrapChain): a determinism
 	// violation is probabilistic and may depend on what the process did before,
@@ -275,10 +321,16 @@ func connectClass(ctx *simrt.Ctx, other string) string {
 func (e detEngine) run(ctx *simrt.Ctx) *simrt.Violation {
 	sc := ctx.Sc
 	uid := fmt.Sprintf("%s-%d-%d", sc.Property, sc.Run, ctx.Seq())
-	opts := simnode.Opts{EditToml: c13Toml(sc.Knob("stat", 0) == 1, false)}
+	opts := c13Opts(sc)
 	en := newEnv(ctx, "a-"+uid, opts)
 	defer en.close()
+	observeOnly := ctx.Sc.Knob("observe_only", 0) == 1 // the body of a fresh process (ChainChildMain)
+	chainChild := sc.Knob("chainchild", 0) == 1 && !observeOnly
+	var mine []*BlockObs
 	var twin *env
+	if observeOnly {
+		sc.Knobs["twin"], sc.Knobs["stat"] = 0, 0
+	}
 	if sc.Knob("twin", 0) == 1 {
 		twin = newEnv(ctx, "b-"+uid, opts)
 		defer twin.close()
@@ -318,7 +370,10 @@ func (e detEngine) run(ctx *simrt.Ctx) *simrt.Violation {
 		}
 		blk := en.newBlock(txs)
 		prev := en.tip.StateHash
-		if op.K == "test" {
+		if chainChild || observeOnly {
+			mine = append(mine, obsOf(blk.Height, execAll(en.n, prev, blk)))
+		}
+		if op.K == "test" && !observeOnly {
 			if v := e.compare(ctx, opts, en, twin, chain, prev, blk, unitsTx, op.I, uid, special); v != nil {
 				return v
 			}
@@ -342,8 +397,55 @@ func (e detEngine) run(ctx *simrt.Ctx) *simrt.Violation {
 		ctx.Logf("op %d: height %d txs %d state %x", i, detail.Block.Height, len(detail.Block.Txs), detail.Block.StateHash)
 	}
 	ctx.CurOp = len(sc.Ops)
+	if observeOnly {
+		childObs = mine
+		return nil
+	}
+	if chainChild && len(mine) > 0 {
+		ctx.Fault("fresh_os_process_chain")
+		theirs := childChain(sc)
+		if len(theirs) != len(mine) {
+			return ctx.Violate("nondeterministic-exec", "fresh-process/chain-length", "the same generated chain gave %d executed blocks in this process and %d in a fresh OS process", len(mine), len(theirs))
+		}
+		for i := range mine {
+			if sig, d := mine[i].out().diff(theirs[i].out()); sig != "" {
+				return ctx.Violate("nondeterministic-exec", "fresh-process/"+sig, "block height %d of the same chain executed in this long-running process and in a fresh OS process gave different %s: %s", mine[i].Height, sig, d)
+			}
+		}
+		ctx.Probe("chain_compared_with_fresh_process")
+	}
 	return nil
 }
+
+// c13Opts is the node configuration of a scenario (the same in a fresh process).
+func c13Opts(sc *simrt.Scenario) simnode.Opts {
+	opts := simnode.Opts{EditToml: c13Toml(sc.Knob("stat", 0) == 1, false)}
+	if sc.Knob("addrforks", 0) == 1 {
+		opts.EditCfg = func(cfg *types.Chain33Config) {
+			cfg.SetFork("ForkMultiSignAddress", 1298600)
+			cfg.SetFork("ForkBase58AddressCheck", 1800000)
+		}
+	}
+	return opts
+}
+
+// BlockObs is everything one execution of a block shows, in a form that
+// travels between processes.
+type BlockObs struct {
+	Height                                    int64
+	Receipts, Detail, StateKV, Root, Add, Del []byte
+	Errs                                      string
+}
+
+func obsOf(h int64, o *execOut) *BlockObs {
+	return &BlockObs{Height: h, Receipts: o.receipts, Detail: o.detail, StateKV: o.stateKV, Root: o.root, Add: o.add, Del: o.del, Errs: o.errs}
+}
+
+func (b *BlockObs) out() *execOut {
+	return &execOut{receipts: b.Receipts, detail: b.Detail, stateKV: b.StateKV, root: b.Root, add: b.Add, del: b.Del, errs: b.Errs}
+}
+
+var childObs []*BlockObs
 
 // compare executes blk on prev under every condition and compares all outputs
 // with the first execution byte for byte.
@@ -546,11 +648,35 @@ func (e detEngine) compareGenesis(ctx *simrt.Ctx, en, twin *env, stat, child boo
 // node with the requested configuration and report its genesis observation.
 func ChildMain(t *testing.T, in io.Reader, out io.Writer) {
 	var req struct {
-		Stat bool `json:"stat"`
+		Stat  bool            `json:"stat"`
+		Chain *simrt.Scenario `json:"chain,omitempty"`
 	}
 	data, err := io.ReadAll(in)
 	simrt.Must(err, "read request")
 	simrt.Must(json.Unmarshal(data, &req), "decode request")
+	if req.Chain != nil {
+		// the whole chain of a scenario, first execution of every block only
+		sc := req.Chain
+		if sc.Knobs == nil {
+			sc.Knobs = map[string]int64{}
+		}
+		sc.Knobs["observe_only"] = 1
+		var viol *simrt.Violation
+		simrt.InBubble(t, func() {
+			ctx := simrt.NewCtx(sc)
+			viol = detEngine{}.run(ctx)
+		})
+		res := struct {
+			Blocks []*BlockObs `json:"blocks"`
+			Viol   string      `json:"viol,omitempty"`
+		}{Blocks: childObs}
+		if viol != nil {
+			res.Viol = viol.Class + " " + viol.Sig + ": " + viol.Detail
+		}
+		b, _ := json.Marshal(res)
+		out.Write(append(b, '\n'))
+		return
+	}
 	var obs *GenesisObs
 	simrt.InBubble(t, func() {
 		ctx := simrt.NewCtx(&simrt.Scenario{Property: "C13"})
@@ -562,7 +688,37 @@ func ChildMain(t *testing.T, in io.Reader, out io.Writer) {
 	out.Write(append(b, '\n'))
 }
 
+// childChain runs the scenario's chain in a fresh OS process and returns what
+// the first execution of every block showed there.
+func childChain(sc *simrt.Scenario) []*BlockObs {
+	req, _ := json.Marshal(map[string]interface{}{"chain": sc})
+	data, diag := runChild(req)
+	var res struct {
+		Blocks []*BlockObs `json:"blocks"`
+		Viol   string      `json:"viol,omitempty"`
+	}
+	if json.Unmarshal(bytes.TrimSpace(data), &res) != nil || (res.Blocks == nil && res.Viol == "") {
+		simrt.Failf("C13 fresh process gave no chain observation: %s", diag)
+	}
+	if res.Viol != "" {
+		// the chain connected here; a fresh process that cannot connect it reports
+		// a shorter list and the comparison shows where
+		return res.Blocks
+	}
+	return res.Blocks
+}
+
 func childGenesis(stat bool) *GenesisObs {
+	req, _ := json.Marshal(map[string]interface{}{"stat": stat})
+	data, diag := runChild(req)
+	var obs GenesisObs
+	if json.Unmarshal(bytes.TrimSpace(data), &obs) != nil || obs.Stored == nil {
+		simrt.Failf("C13 fresh process gave no observation: %s", diag)
+	}
+	return &obs
+}
+
+func runChild(req []byte) ([]byte, string) {
 	self, err := os.Executable()
 	simrt.Must(err, "os.Executable")
 	cmd := exec.Command(self, "-test.run", "^TestExecsimChild$", "-test.timeout", "0", "-test.count", "1")
@@ -574,7 +730,6 @@ func childGenesis(stat bool) *GenesisObs {
 		env = append(env, kv)
 	}
 	cmd.Env = append(env, "VERIF_EXECSIM_CHILD=1")
-	req, _ := json.Marshal(map[string]interface{}{"stat": stat})
 	cmd.Stdin = bytes.NewReader(req)
 	pr, pw, err := os.Pipe()
 	simrt.Must(err, "pipe")
@@ -586,13 +741,9 @@ func childGenesis(stat bool) *GenesisObs {
 	data, _ := io.ReadAll(pr)
 	werr := cmd.Wait()
 	pr.Close()
-	var obs GenesisObs
-	if json.Unmarshal(bytes.TrimSpace(data), &obs) != nil || obs.Stored == nil {
-		s := errb.String()
-		if len(s) > 2000 {
-			s = s[len(s)-2000:]
-		}
-		simrt.Failf("C13 fresh process gave no observation (%v): %s", werr, s)
+	diag := errb.String()
+	if len(diag) > 2000 {
+		diag = diag[len(diag)-2000:]
 	}
-	return &obs
+	return data, fmt.Sprintf("(%v) %s", werr, diag)
 }
